@@ -1,6 +1,8 @@
 package remote
 
 import (
+	"time"
+
 	"github.com/openebs/jiva/replica/rest"
 	"github.com/openebs/jiva/rpc"
 	"github.com/openebs/jiva/types"
@@ -16,6 +18,9 @@ func ZZNewRemote(addr string, m *zzmodel.Replica) *Remote {
 		closeChan:   make(chan struct{}, 5),
 		monitorChan: make(types.MonitorChannel, 5),
 	}
+	// the ping ticker never fires (ping failures are injected explicitly); natively
+	// the interval is pushed out of reach for the same effect
+	pingInveral = 1000 * time.Hour
 	go r.monitorPing((*rpc.Client)(nil))
 	return r
 }
